@@ -256,6 +256,52 @@ def run_render(res, rng, w, home, specs, sizes, via):
     res.sample({"kind": "render", "via": via, "specifiers": [spec_text(s) for s in specs[:5]], "sizes": sizes[:8]}, cap=1)
 
 
+def run_multi(res, rng, w, home, specs, sizes):
+    """Metamorphic: format_size(size, A), format_size(size, B), format_size(size), fsize in ONE query print the same cells
+    as one query per column (a specifier must not leak from one call to another, nor into WHERE / ORDER BY)."""
+    d = os.path.join(w, "m")
+    os.mkdir(d)
+    for s in sizes:
+        with open(os.path.join(d, "f%d" % s), "wb") as f:
+            f.truncate(s)
+    for _ in range(len(specs) // 3):
+        chosen = rng.sample(specs, 3)
+        cols = ["format_size(size, '%s')" % spec_text(s) if spec_text(s) else "format_size(size)" for s in chosen] + ["format_size(size)", "fsize"]
+        cols = list(dict.fromkeys(cols))
+        rng.shuffle(cols)
+        alone = {}
+        ok = True
+        for c in cols:
+            r = runner.run(["name, %s from m into list" % c], cwd=w, home=home)
+            res.ev()
+            if r.verdict != "ok" or r.rc != 0 or r.err:
+                ok = False
+                break
+            alone[c] = dict(r.rows(2))
+        if not ok:
+            continue
+        tail = rng.choice(["", " where format_size(size, '%.0 k') != 'x'", " order by format_size(size, '%.1 d')", " order by size desc"])
+        q = "name, %s from m%s into list" % (", ".join(cols), tail)
+        r = runner.run([q], cwd=w, home=home)
+        res.ev()
+        ctx = {"query": q, "result": r.brief()}
+        if r.verdict != "ok" or r.rc != 0 or r.err:
+            res.viol("`%s`: status %s stderr %r" % (q, r.rc, r.err[:120]), ctx)
+            continue
+        bad = False
+        for row in r.rows(len(cols) + 1):
+            for c, cell in zip(cols, row[1:]):
+                if alone[c].get(row[0]) != cell:
+                    res.viol("%s prints %r for %s next to %s, but %r when selected alone" % (c, cell, row[0], [x for x in cols if x != c], alone[c].get(row[0])), ctx)
+                    bad = True
+                    break
+            if bad:
+                break
+        if not bad:
+            res.count("multi_specifier_queries_checked")
+            res.nt("multi|" + q)
+
+
 def run_job(job):
     res = JobResult()
     rng = random.Random(job["seed"])
@@ -265,6 +311,8 @@ def run_job(job):
         home = runner.make_home(sc)
         if job["kind"] == "literals":
             run_literals(res, rng, w, home, [tuple(c) for c in job["cases"]])
+        elif job["kind"] == "multi":
+            run_multi(res, rng, w, home, [tuple(s) for s in job["specs"]], job["sizes"])
         else:
             run_render(res, rng, w, home, [tuple(s) for s in job["specs"]], job["sizes"], job["via"])
     finally:
@@ -296,6 +344,9 @@ def main(chk):
                      "specs": specs[i:i + 6], "sizes": sizes})
         jobs.append({"id": "fs%d" % i, "kind": "render", "via": "fsize", "seed": job_seed(chk.seed, "C14", "s%d" % i),
                      "specs": specs[i + 6:i + 12], "sizes": sizes})
+    for i in range(0, nspec, per * (6 if quick else 1)):
+        jobs.append({"id": "multi%d" % i, "kind": "multi", "seed": job_seed(chk.seed, "C14", "m%d" % i), "specs": specs[i:i + 12],
+                     "sizes": sorted(rng.sample([g for g in grid if g <= 2 ** 40 + 1], 5))})
     chk.run_jobs(jobs, budget_s=300 if quick else 3000)
     return chk.finish(
         rule="(a) every unit suffix (none b k kib kb m mib mb g gib gb t tib tb) in lower/upper/capitalised/random case with integer and "
@@ -308,6 +359,6 @@ def main(chk):
         assumptions=["exact rendered strings are not modelled (rounding belongs to the humansize crate); only the three stated relations are",
                      "the round trip is judged only for flag/unit combinations whose base the documentation defines (not c+d, d+kib, c+kb)",
                      "one format_size column per run, so a C15 value-cache defect cannot raise a C14 alarm"],
-        require={"unit_op": 100, "specifiers_literal": 800 if not quick else 800},
+        require={"unit_op": 100, "specifiers_literal": 800 if not quick else 800, "multi_specifier_queries_checked": 20},
         exhaustive={"unit_suffixes": UNITS, "specifier_grammar_size": nspec, "size_grid_points": len(grid)},
     )
